@@ -780,6 +780,15 @@ def replay_table(fl, FA, vals=None, seed=0, budget=200, skip_classes=(), only_cl
         r, err = _try(m, *[0.5, 0.25][:e.arity])
         if err or np.shape(r) != ():
             problems.append((n, "method takes %d scalar arguments and returns a scalar" % e.arity, err or repr(r)))
+        # an undefined operand gives an undefined result (the library's convention for every numeric function: NaN in, NaN out); the relational
+        # indicators are the documented exception (they answer 0/1)
+        if e.arity >= 1 and n not in REL and not err:
+            for k in range(e.arity):
+                args = [0.5, 0.25][:e.arity]
+                args[k] = float("nan")
+                r2, err2 = _try(m, *args)
+                if err2 or not (np.shape(r2) == () and np.isnan(r2)):
+                    problems.append((n, "%s(%s) is nan" % (n, ", ".join(repr(a) for a in args)), err2 or repr(r2)))
     count = {n: sum(1 for p in problems if p[0] == n) for n, _, _ in problems}
     skipped = {}
     for n, expd, obs in sorted(problems, key=lambda p: (-count[p[0]], p[0])):
